@@ -101,6 +101,7 @@ Ltac vec_eq := apply ip_ext; intro; ip_norm; try ring; try (field; auto).
 (* ---- scalars: the real instance of the model's operation record ----------------- *)
 Definition ROps : SOps :=
   mkSOps R 0 1 2 4 Rplus Rminus Rmult Rdiv Ropp sqrt
+         (fun a b => if Rlt_dec a b then b else a)
          (fun a => if Rlt_dec 0 a then true else false)
          (fun a => if Req_EM_T a 0 then true else false).
 
@@ -324,6 +325,55 @@ Section ProxGradTheory.
       assert (H1 : alpha * v * ((n + 2) * (n + 2)) <= alpha * v * (4 * (t * t))).
       { apply Rmult_le_compat_l; [nra | exact Htt]. }
       nra.
+  Qed.
+
+  (* ---- resid = 0 only at a minimiser (the stopping rule `resid <= tol` with tol = 0) ---------- *)
+  Lemma vnorm_div_zero (v : E) alpha : 0 < alpha -> vnorm v / alpha = 0 -> v = v0.
+  Proof.
+    intros Ha H. apply ip_def.
+    assert (Hn : vnorm v = 0).
+    { apply Rmult_eq_reg_r with (/ alpha); [|apply Rinv_neq_0_compat; lra]. unfold Rdiv in H. rewrite H. ring. }
+    unfold vnorm in Hn. apply sqrt_eq_0; [apply ip_pos | exact Hn].
+  Qed.
+
+  Lemma vnorm_div_nonneg (v : E) alpha : 0 < alpha -> 0 <= vnorm v / alpha.
+  Proof.
+    intro Ha. unfold Rdiv. apply Rmult_le_pos; [apply sqrt_pos | left; apply Rinv_0_lt_compat; exact Ha].
+  Qed.
+
+  Lemma stationary_is_minimiser alpha x : 0 < alpha -> pg alpha x = x -> forall z, F x <= F z.
+  Proof.
+    intros Ha Hfix z. pose proof (pg_ineq alpha x z Ha) as H. rewrite Hfix in H.
+    assert (H0 : ip (vminus x x) (vminus x z) = 0) by (ip_norm; ring).
+    assert (H1 : nrm2 (vminus x x) = 0) by (ip_norm; ring).
+    rewrite H0, H1 in H. nra.
+  Qed.
+
+  Lemma gm_resid_zero_lemma acc alpha (st : gm_state ROps E) : 0 < alpha ->
+    gm_resid (gstep acc alpha st) = 0 ->
+    pg alpha (gm_x (gstep acc alpha st)) = gm_x (gstep acc alpha st) /\
+    forall z, F (gm_x (gstep acc alpha st)) <= F z.
+  Proof.
+    intros Ha Hr.
+    assert (Hfix : pg alpha (gm_x (gstep acc alpha st)) = gm_x (gstep acc alpha st)).
+    { destruct acc.
+      - rewrite fista_step_x in *.
+        change (gm_resid (gstep true alpha st))
+          with (let r1 := vnorm (vminus (pg alpha (gm_z st)) (gm_x st)) / alpha in
+                let r2 := vnorm (vminus (pg alpha (gm_z st)) (gm_z st)) / alpha in
+                if Rlt_dec r1 r2 then r2 else r1) in Hr.
+        cbv zeta in Hr.
+        pose proof (vnorm_div_nonneg (vminus (pg alpha (gm_z st)) (gm_x st)) alpha Ha) as H1.
+        pose proof (vnorm_div_nonneg (vminus (pg alpha (gm_z st)) (gm_z st)) alpha Ha) as H2.
+        assert (H2z : vnorm (vminus (pg alpha (gm_z st)) (gm_z st)) / alpha = 0).
+        { destruct (Rlt_dec _ _) in Hr; lra. }
+        apply vnorm_div_zero in H2z; [|exact Ha]. apply vminus_eq_0 in H2z.
+        rewrite H2z. exact H2z.
+      - rewrite ista_step_x in *.
+        change (gm_resid (gstep false alpha st)) with (vnorm (vminus (pg alpha (gm_x st)) (gm_x st)) / alpha) in Hr.
+        apply vnorm_div_zero in Hr; [|exact Ha]. apply vminus_eq_0 in Hr.
+        rewrite Hr. exact Hr. }
+    split; [exact Hfix | apply (stationary_is_minimiser alpha _ Ha Hfix)].
   Qed.
 End ProxGradTheory.
 
